@@ -17,6 +17,7 @@ mod probes;
 mod run;
 #[cfg(feature = "cfg_a")]
 mod serde_tape;
+mod reentrant;
 mod shapes;
 
 use ops::*;
@@ -215,6 +216,7 @@ fn main() {
         }
         #[cfg(feature = "cfg_a")]
         "serde" | "serde-replay" => cmd_serde(&args),
+        "reentrant" | "reentrant-replay" => cmd_reentrant(&args),
         "run" => cmd_run(&args),
         _ => {
             eprintln!("unknown command");
@@ -464,4 +466,58 @@ fn cmd_serde(args: &[String]) {
         }
     }
     println!("STATS\t{}", j);
+}
+
+/// Re-entrant user code scenarios (sim/src/reentrant.rs): `reentrant --seed S --from A --to B`
+/// or `reentrant-replay <file>`.
+fn cmd_reentrant(args: &[String]) {
+    let replaying = args[1] == "reentrant-replay";
+    let (seed, from, to) = if replaying {
+        let text = std::fs::read_to_string(&args[2]).unwrap_or_else(|_| std::process::exit(2));
+        let (mut seed, mut index) = (0u64, 0u64);
+        for l in text.lines() {
+            let w: Vec<&str> = l.split_whitespace().collect();
+            match w.as_slice() {
+                ["seed", x] => seed = x.parse().unwrap_or(0),
+                ["index", x] => index = x.parse().unwrap_or(0),
+                _ => {}
+            }
+        }
+        (seed, index, index + 1)
+    } else {
+        (
+            arg(args, "--seed").and_then(|s| s.parse().ok()).unwrap_or(1),
+            arg(args, "--from").and_then(|s| s.parse().ok()).unwrap_or(0),
+            arg(args, "--to").and_then(|s| s.parse().ok()).unwrap_or(100),
+        )
+    };
+    install_hook(arg(args, "--out-dir").unwrap_or(""));
+    let t0 = std::time::Instant::now();
+    let mut st = reentrant::ReStats::default();
+    for i in from..to {
+        if replaying {
+            println!("SCENARIO\t{}", reentrant::describe(seed, i));
+        }
+        {
+            let _nt = NoTrack::new();
+            let mut g = CUR.lock().unwrap_or_else(|e| e.into_inner());
+            g.alt = Some((format!("reentrant-{}-{}", seed, i), format!("trisim-reentrant v1\nseed {}\nindex {}\n# scenario: {}\n", seed, i, reentrant::describe(seed, i))));
+        }
+        reentrant::run_case(seed, i, &mut st);
+    }
+    if replaying {
+        println!("RUN-OK\treentrant");
+        return;
+    }
+    let list = |x: &[u64]| x.iter().map(|v| v.to_string()).collect::<Vec<_>>().join(",");
+    println!(
+        "STATS\t{{\"profile\":\"reentrant\",\"seed\":{},\"from\":{},\"to\":{},\"runs\":{},\"by_op\":[{}],\"siblings_released_in_callback\":{},\"by_sibling_kind\":[{}],\"callback_panics\":{},\"destructor_panics\":{},\"became_last_owner_inside_call\":{},\"in_place\":{},\"copied\":{},\"moved_out\":{},\"blocks_left_after_unwinding\":{},\"distinct_shapes\":{},\"wall_s\":{:.3}}}",
+        seed, from, to, st.scenarios, list(&st.by_op), st.siblings_released_in_callback, list(&st.by_sibling_kind), st.callback_panics, st.destructor_panics, st.became_last_owner_inside_call, st.in_place, st.copied, st.moved_out, st.blocks_left_after_unwinding, st.distinct.len(), t0.elapsed().as_secs_f64()
+    );
+    if let Some(hp) = arg(args, "--hashes") {
+        let mut f = std::fs::File::create(hp).expect("hash file");
+        for h in &st.distinct {
+            let _ = f.write_all(&h.to_le_bytes());
+        }
+    }
 }
